@@ -234,6 +234,9 @@ Pre(m, a) ==
     [] a.a = "parse_expr" -> Live(m, a.c) /\ a.h \in DOMAIN m.expr /\ m.expr[a.h].st = "free" /\ a.p \in DOMAIN Expr
                              /\ Expr[a.p].needs \cap (m.ctx[a.c].maybe \ m.ctx[a.c].decl) = {}
     [] a.a = "eval"      -> a.g \in DOMAIN m.expr /\ ExprUsable(m, a.g) /\ a.c = m.expr[a.g].c /\ a.h \in DOMAIN m.lib /\ m.lib[a.h].st = "free"
+                            \* (the variables it reads hold a value: one that a compiled-but-not-run text merely declared reads as the null
+                            \*  of its declared type, which this machine does not track)
+                            /\ (Expr[m.expr[a.g].q].needs \ FuncNames) \subseteq DOMAIN m.ctx[a.c].S.vars
     [] a.a = "expr_free" -> a.h \in DOMAIN m.expr /\ m.expr[a.h].st # "free"
     [] a.a = "drop"      -> Live(m, a.c) /\ a.h \in DOMAIN m.val /\ m.val[a.h].st = "free"
     [] OTHER -> FALSE
